@@ -858,6 +858,17 @@ class Engine(object):
                 else:
                     raise Unsupported("slice of %s" % type(base).__name__)
             return outs
+        slot = self.slot_path(e)
+        if slot is not None:
+            # declared slot `xs[i]` of a block contract: the same text denotes the same element until it is stored to
+            memo = st.ghost.setdefault("__paths__", {})
+            if slot not in memo:
+                kind = self.contract.paths.get(slot)
+                nv = self.fresh_value(kind, slot, st) if kind else VOpaque(note=slot)
+                if isinstance(nv, VOpaque):
+                    nv.path = slot
+                memo[slot] = nv
+            return [(st, memo[slot])]
         for s, (base, idx) in self.eval_seq([e.value, e.slice], st):
             if isinstance(idx, VSlice) and isinstance(base, VStr):
                 lo = None if isinstance(idx.lo, VNone) else idx.lo.z
@@ -924,6 +935,18 @@ class Engine(object):
                     continue
             raise Unsupported("subscript %s[%s]" % (type(base).__name__, type(idx).__name__))
         return outs
+
+    def slot_path(self, e):
+        """`xs[i]` (two plain names) when the block contract declares an access path through it, else None"""
+        c = self.contract
+        if c is None or not getattr(c, "paths", None) or getattr(c, "block", None) is None:
+            return None
+        if not (isinstance(e, ast.Subscript) and isinstance(e.value, ast.Name) and isinstance(e.slice, ast.Name)):
+            return None
+        key = "%s[%s]" % (e.value.id, e.slice.id)
+        if any(p_ == key or p_.startswith(key + ".") for p_ in c.paths):
+            return key
+        return None
 
     def wrap_sort(self, z, sort):
         if sort == I:
@@ -1250,6 +1273,11 @@ class Engine(object):
         """-> [(state, value)]"""
         if isinstance(recv, VStr):
             s = recv.z
+            if m in ("strip", "rstrip") and len(args) == 1 and isinstance(args[0], VStr):
+                r_ = z3.Function("py_%s_chars" % m, S, S, S)(s, args[0].z)
+                st.assume(z3.Length(r_) <= z3.Length(s))
+                self.assumptions.add("stdlib spec: s.%s(chars) is an uninterpreted string no longer than s" % m)
+                return [(st, VStr(r_))]
             if m in ("strip", "lstrip", "rstrip") and not args:
                 fn = {"strip": py_strip, "lstrip": py_lstrip, "rstrip": py_rstrip}[m]
                 r = fn(s)
@@ -1390,7 +1418,19 @@ class Engine(object):
         if m == "find":
             # if sub occurs at or after lo (as a whole-string containment fact) find does not return -1
             st.assume(z3.Implies(z3.And(lo_z == 0, hi_z == n, z3.Contains(s, sub)), r != -1))
-        self.assumptions.add("stdlib spec: s.find/rfind(sub, lo, hi) is -1 or an index r in [lo, hi-len(sub)] with s[r:r+len(sub)] == sub")
+        # exactness (first / last occurrence), for a non-empty needle and a well-ordered window, as a word equation:
+        # window == pre ++ sub ++ post with len(pre) == r - lo and no further occurrence before (find) / after (rfind)
+        wf = z3.And(k > 0, lo_z <= hi_z)
+        whole = (lo is None or isinstance(lo, VNone)) and (hi is None or isinstance(hi, VNone))
+        win = s if whole else z3.SubString(s, lo_z, hi_z - lo_z)
+        pre, post = fresh(m + ".pre", S), fresh(m + ".post", S)
+        st.assume(z3.Implies(z3.And(wf, r == -1), z3.Not(z3.Contains(win, sub))))
+        if m == "find":
+            excl = z3.Not(z3.Contains(z3.Concat(pre, z3.SubString(sub, 0, k - 1)), sub))
+        else:
+            excl = z3.Not(z3.Contains(z3.Concat(z3.SubString(sub, 1, k - 1), post), sub))
+        st.assume(z3.Implies(z3.And(wf, r >= 0), z3.And(win == z3.Concat(pre, sub, post), z3.Length(pre) == r - lo_z, excl)))
+        self.assumptions.add("stdlib spec: s.find/rfind(sub, lo, hi) is -1 (iff sub does not occur in s[lo:hi]) or the first/last index r in [lo, hi-len(sub)] with s[r:r+len(sub)] == sub")
         return VInt(r)
 
     def str_format(self, tpl, kwargs):
@@ -1869,6 +1909,13 @@ class Engine(object):
             raise Unsupported("unpacking %s" % type(v).__name__)
         if isinstance(target, ast.Subscript) and not isinstance(target.slice, ast.Slice):
             outs = []
+            slot = self.slot_path(target)
+            if slot is not None:
+                memo = st.ghost.setdefault("__paths__", {})
+                for k_ in [k_ for k_ in memo if k_.startswith(slot + ".")]:
+                    del memo[k_]
+                memo[slot] = v
+                return [st]
             for s, (base, idx) in self.eval_seq([target.value, target.slice], st):
                 if isinstance(base, VRef) and isinstance(s.heap[base.rid], MapObj) and isinstance(idx, (VStr, VOpaque)):
                     mo = s.heap[base.rid]
@@ -2459,13 +2506,48 @@ def _engine_verify_block(self, contract):
         for fld in ("body", "orelse"):
             stmts = getattr(n, fld, None)
             if isinstance(stmts, list) and stmts and isinstance(stmts[0], ast.stmt):
-                sel = [s_ for s_ in stmts if contract.block(ast.unparse(s_))]
+                if isinstance(contract.block, tuple):
+                    # (first, last[, "before"]): the contiguous run of statements of one body from the statement whose text
+                    # starts with `first` to the next one whose text starts with `last` (excluded with "before")
+                    txts = [ast.unparse(s_) for s_ in stmts]
+                    a_ = next((i_ for i_, t_ in enumerate(txts) if t_.startswith(contract.block[0])), None)
+                    b_ = None if a_ is None else next((i_ for i_ in range(a_, len(txts)) if txts[i_].startswith(contract.block[1])), None)
+                    if len(contract.block) > 2 and contract.block[2] == "before" and b_ is not None:
+                        b_ -= 1  # up to, excluding, the statement that starts with `last`
+                    sel = stmts[a_:b_ + 1] if b_ is not None and b_ >= a_ else []
+                else:
+                    sel = [s_ for s_ in stmts if contract.block(ast.unparse(s_))]
                 if sel:
                     if chosen is not None:
                         raise OutOfSubset("block of %s matches in more than one place" % contract.qual)
                     chosen = sel
     if not chosen:
         raise OutOfSubset("block of %s not found in current source" % contract.qual)
+    # slot paths `xs[i]...`: sound only if the block touches xs and i in no other way (no aliasing slot, no re-binding)
+    slots = {}
+    for pth in contract.paths:
+        t_ = ast.parse(pth, mode="eval").body
+        while isinstance(t_, ast.Attribute):
+            t_ = t_.value
+        if isinstance(t_, ast.Subscript) and isinstance(t_.value, ast.Name) and isinstance(t_.slice, ast.Name):
+            slots.setdefault(t_.value.id, set()).add(t_.slice.id)
+    for base_, idxs in slots.items():
+        if len(idxs) != 1:
+            raise OutOfSubset("block of %s: more than one slot of %s declared" % (contract.qual, base_))
+        idx_ = next(iter(idxs))
+        par_ = {}
+        for stmt_ in chosen:
+            for n in ast.walk(stmt_):
+                for ch in ast.iter_child_nodes(n):
+                    par_[id(ch)] = n
+        for stmt_ in chosen:
+            for n in ast.walk(stmt_):
+                if isinstance(n, ast.Name) and n.id == base_:
+                    up = par_.get(id(n))
+                    if not (isinstance(up, ast.Subscript) and up.value is n and isinstance(up.slice, ast.Name) and up.slice.id == idx_):
+                        raise OutOfSubset("block of %s uses %s other than as %s[%s] (line %d)" % (contract.qual, base_, base_, idx_, n.lineno))
+                if isinstance(n, ast.Name) and n.id == idx_ and isinstance(n.ctx, ast.Store):
+                    raise OutOfSubset("block of %s re-binds the slot index %s (line %d)" % (contract.qual, idx_, n.lineno))
     st = State()
     for n_, kind in contract.params.items():
         v = self.fresh_value(kind, n_, st)
